@@ -12,38 +12,39 @@ META = {
             "construction, the two release stores of the tag to the slot and to its mirror, size add), for every client "
             "program of emplace/insert/operator[]/find/contains, every number of threads, every schedule, every hash "
             "function (colliding hashes, equal 7-bit tags), every initial capacity incl. the default-constructed "
-            "placeholder and any number of chained growth steps.  Proved: at most one insertion per key reports success; "
-            "all insertions and lookups of a key return the same slot and saw the same fully constructed element, which "
-            "was built from the winner's arguments; a key lives in at most one slot of the whole chain (growth never "
-            "duplicates); control bytes only move EMPTY -> BUSY -> tag, tags / constructed elements never change and tables "
-            "are only appended (growth never drops); a published tag (slot or mirror) implies a constructed element with "
-            "that tag, no key comparison ever reads raw storage, no slot is constructed twice; chain/probe invariant: "
-            "every table, group and byte a stored key's probe examines before its slot is the tag of a constructed "
-            "element of another key; a failing insertion never took the construction step (argument not consumed) and found its whole probe sequence full.  Index/mask/probe formulas, "
-            "the CAS operands, the failed-CAS tests, the stored bytes, the statement order construct -> publish -> size and "
-            "the memory orders are regenerated from transient_hash_table.hpp on every run.  Tie: the real classes run "
-            "under the deterministic scheduler (every atomic operation of the table code is a scheduling point, extra "
-            "points sit in the harness-supplied hash functor, key equality and element constructor, so a reader can be "
-            "scheduled before a group load, between the group load and the slot read and between CAS and construction); "
-            "every outcome of a small program must be one the extracted model admits (exhaustive exploration of all "
-            "schedules of the model); monitors check the property text directly on every run (exactly one winner, same "
-            "element, visibility by begin/end stamps, constructed once, argument not consumed, failure only when full, "
-            "final iteration without drop/duplicate, size, destructors, table/node allocations balanced).",
-    "note": "PARTIAL theorems (full statements are Definitions in HCProofs.v, not proved): (1) 'a lookup that starts after "
-            "an insertion returned never misses' is proved at state level only (c03_find_after_insert_partial: the tag "
-            "stays published at a position of the key's own probe sequence addressing the returned slot, the element "
-            "stays, and by c03_key_position there is no free byte before it); the induction over the later lookup "
-            "thread's steps (find_after_insert_stmt) is open - covered by the `visible` monitor and by the '^' marks of "
-            "the outcome correspondence.  (2) 'exactly one winner in a finished run' (exactly_one_winner_stmt): only 'at "
-            "most one' is proved; covered by the `winner` monitor.  (3) c03_full_fixed_fails_clean (failed insertion: argument not consumed, whole probe sequence full) is "
-            "proved; that the probe sequence covers every bucket (table completely full) is proved for the same formulas "
-            "under C18 (HSProofs.tri_surj), not re-proved here.  Sequentially consistent interleavings only.  The SIMD group load is "
-            "a plain, possibly torn 16-byte load: the model takes it as one step; torn loads are covered only by the "
-            "byte-monotonicity theorem (c03_bytes_monotone), every invariant of the proof being per byte position.  "
-            "Release/acquire pairing is checked on the regenerated site tables, not executed.  No PCT schedules: the BUSY "
-            "spin-wait of do_emplace needs a fair scheduler.  Trusted: Coq kernel; translator; extraction + the explorer "
-            "in ocaml/hc_driver.ml; macro shim + dsched; the driver's operator new/delete replacement and "
-            "private-member access (-fno-access-control).",
+            "placeholder and any number of chained growth steps.  All proved at full strength: per key at most one "
+            "insertion reports success and in a finished run exactly one does; all insertions and lookups of a key return "
+            "the same slot and saw the same fully constructed element, built from the winner's arguments; a lookup whose "
+            "begin stamp is after the end stamp of a returned insertion of its key returns that slot; a key lives in at "
+            "most one slot of the whole chain (growth never duplicates); control bytes only move EMPTY -> BUSY -> tag, tags "
+            "/ constructed elements never change and tables are only appended (growth never drops); a published tag "
+            "(slot or mirror) implies a constructed element with that tag, no key comparison ever reads raw storage, no "
+            "slot is constructed twice; chain/probe invariant (every table, group and byte a stored key's probe examines "
+            "before its slot is the tag of a constructed element of another key); a failing insertion never took the "
+            "construction step (argument not consumed) and found its whole probe sequence full.  Release/acquire "
+            "publication on the explicit RA machine (coq/WM/RA.v) for all executions, with the orders computed from the "
+            "regenerated site tables: tag and mirror-tag publication (release store vs. plain group load + acquire "
+            "fence, new skeleton coq/HC/HCLitmus.v) and chained-table publication (next CAS vs. acquire loads of find and "
+            "emplace, and the CAS loser); each weakened order has a refuting execution.  Index/mask/probe formulas, the "
+            "CAS operands, the failed-CAS tests, the stored bytes, the statement order construct -> publish -> size and the "
+            "memory orders are regenerated from transient_hash_table.hpp on every run.  Tie: the real classes run under "
+            "the deterministic scheduler (every atomic operation of the table code is a scheduling point, extra points "
+            "sit in the harness-supplied hash functor, key equality and element constructor, so a reader can be scheduled "
+            "before a group load, between the group load and the slot read and between CAS and construction); every "
+            "outcome of a small program must be one the extracted model admits (exhaustive exploration of all schedules "
+            "of the model); monitors check the property text directly on every run (exactly one winner, same element, "
+            "visibility by begin/end stamps, constructed once, argument not consumed, failure only when full, final "
+            "iteration without drop/duplicate, size, destructors, table/node allocations balanced); an RA-machine "
+            "witness search reports a bad execution when a publication order is weakened.",
+    "note": "No partial theorems left.  Imported rather than re-proved: that the triangular probe sequence covers every "
+            "bucket (so 'whole probe sequence full' means 'table completely full') is HSProofs.tri_surj (C18, same "
+            "regenerated formulas).  The interleaving theorems are about sequentially consistent interleavings; the SIMD "
+            "group load is a plain, possibly torn 16-byte load which the model takes as one step: torn loads are covered "
+            "only by the byte-monotonicity theorem (c03_bytes_monotone), every invariant of the proof being per byte "
+            "position; the weak-memory side is covered by the publication litmus theorems on the RA machine (two- and "
+            "three-thread skeletons, not the whole table).  No PCT schedules: the BUSY spin-wait of do_emplace needs a "
+            "fair scheduler.  Trusted: Coq kernel; translator; extraction + the explorer in ocaml/hc_driver.ml; macro shim "
+            "+ dsched; the driver's operator new/delete replacement and private-member access (-fno-access-control).",
 }
 
 MON = ["winner", "same", "visible", "ctor", "noconsume", "fullok", "nodrop", "nodup", "size", "dtor", "leak"]
@@ -157,6 +158,26 @@ def main(argv):
     thorough = chk.tier == "thorough"
     chk.translate(["hash_table", "hash_table_conc"])
     chk.coq("Properties_C03.v")
+    # release/acquire publication obligations, orders from the regenerated site tables; when an order was weakened the
+    # proof breaks AND the search prints a bad execution of the release/acquire view machine
+    li = "Require Import Verif.HC.HCLitmus."
+    chk.wm_litmus("tag-publication", li, "mp_store_fence_safe tag_store_order find_fence_order && "
+                  "mp_store_fence_safe mirror_store_order emplace_fence_order",
+                  "mp_store_fence (if has_release tag_store_order then mirror_store_order else tag_store_order) "
+                  "(if has_acquire find_fence_order then emplace_fence_order else find_fence_order)", "mp_bad",
+                  "the release store of the tag (slot or mirror) or the acquire fence after the group load was weakened: a "
+                  "reader that sees the tag can read an element that is not constructed yet", machine="RA")
+    chk.wm_litmus("next-publication", li, "mp_cas_safe next_cas_order next_load_find_head_order && "
+                  "mp_cas_safe next_cas_order next_load_find_node_order && mp_cas_safe next_cas_order next_load_emplace_order",
+                  "mp_cas_publish next_cas_order (if has_acquire next_load_find_head_order then "
+                  "(if has_acquire next_load_find_node_order then next_load_emplace_order else next_load_find_node_order) "
+                  "else next_load_find_head_order)", "mp_cas_bad",
+                  "the next-pointer CAS lost its release or a next load its acquire: a thread can use a chained table "
+                  "whose control bytes are not initialised yet", machine="RA")
+    chk.wm_litmus("next-cas-loser", li, "has_acquire next_cas_fail_order && mp_cas_loser_safe next_cas_order",
+                  "mp_cas_loser (if has_acquire next_cas_fail_order then next_cas_order else Release)", "mp_loser_bad",
+                  "the failing next-pointer CAS does not acquire: the loser can use the winner's table before its "
+                  "initialisation is visible", machine="RA")
     model = chk.extract("hc", "Extract_hc.v", "hc_driver.ml")
     impl = chk.build_cpp("c03_hash_table", [os.path.join(VERIF, "harness/conc/c03_hash_table.cpp"),
                                             os.path.join(VERIF, "harness/shim/dsched.cpp")],
